@@ -40,7 +40,7 @@ func (n *Node) toks(out *[]string) {
 	switch n.Kind {
 	case 's', 'e', 'i', 'b':
 		*out = append(*out, string(n.Kind)+":"+hx(n.P))
-	case 'n', 'z', 'Z':
+	case 'n', 'z', 'Z', 'N':
 		*out = append(*out, string(n.Kind))
 	case 'a':
 		*out = append(*out, "a"+strconv.Itoa(len(n.Es)))
@@ -60,7 +60,7 @@ func parseNode(toks []string) (*Node, []string) {
 	t := toks[0]
 	rest := toks[1:]
 	switch {
-	case t == "n" || t == "z" || t == "Z":
+	case t == "n" || t == "z" || t == "Z" || t == "N":
 		return &Node{Kind: t[0]}, rest
 	case len(t) > 1 && t[1] == ':':
 		return &Node{Kind: t[0], P: unhx(t[2:])}, rest
@@ -232,6 +232,8 @@ func (n *Node) refEnc(out *[]byte) {
 		*out = append(*out, '\r', '\n')
 	case 'n':
 		*out = append(*out, "$-1\r\n"...)
+	case 'N': // the null array
+		*out = append(*out, "*-1\r\n"...)
 	case 'a':
 		*out = append(*out, '*')
 		*out = append(*out, strconv.Itoa(len(n.Es))...)
@@ -243,6 +245,13 @@ func (n *Node) refEnc(out *[]byte) {
 }
 
 func (n *Node) equal(o *Node) bool {
+	// the parser hands a null array (*-1) out as an array without elements
+	if n.Kind == 'N' {
+		n = &Node{Kind: 'a', Es: []*Node{}}
+	}
+	if o.Kind == 'N' {
+		o = &Node{Kind: 'a', Es: []*Node{}}
+	}
 	if n.Kind != o.Kind || string(n.P) != string(o.P) || len(n.Es) != len(o.Es) {
 		return false
 	}
